@@ -484,7 +484,6 @@ def run(plan):
 def _run(world: World, plan, restore):
     from aioslsk.shares.model import DirectoryShareMode
 
-    loop = world.loop
     root = world.sandbox.sub('alice', 'shares')
 
     def P(comps):
@@ -683,7 +682,7 @@ def _run(world: World, plan, restore):
         facts_base = {'point': where, 'overlap': state['overlap']}
         if doubles:
             world.violate('C07.index', what='double', **facts_base)
-        wrong_owner = False
+        owner_mismatch = any(e[1] != e[3] for e in entries)     # item claims another directory than its container
         if where != 'between':
             required = model.expected_index(False)
             allowed = model.expected_index(True)
@@ -703,7 +702,6 @@ def _run(world: World, plan, restore):
                     continue
                 expect_remote = '@@' + alias_of.get(want, '?') + '\\' + model.query_path(p, want)
                 if container != want or item_owner != want or remote != expect_remote:
-                    wrong_owner = True
                     world.violate('C07.index', what='wrong_owner', moved=model.moved.get(p),
                                   container_ok=container == want, item_owner_ok=item_owner == want,
                                   reported_ok=remote == expect_remote, **facts_base)
@@ -714,7 +712,7 @@ def _run(world: World, plan, restore):
             world.trace('stats', label, got)
             if got != want_stats:
                 world.violate('C07.stats', folders_ok=got[0] == want_stats[0], files_ok=got[1] == want_stats[1],
-                              wrong_owner=wrong_owner, **facts_base)
+                              owner_mismatch=owner_mismatch, **facts_base)
 
     def do_query(text, cap):
         settings.searches.receive.max_results = cap
@@ -746,6 +744,7 @@ def _run(world: World, plan, restore):
         where = point()
         exact = where != 'between'
         indexed_words = model.indexed_words() if exact else None
+        aliases = {d.alias for d in shares.shared_directories}
         for qi, q in enumerate(plan.get('queries', [])):
             text, cap = q['q'], int(q.get('max', 100))
             try:
@@ -757,15 +756,24 @@ def _run(world: World, plan, restore):
                 continue
             got = [p for p, _ in res]
             got_set = set(got)
+            remotes = {}
+            for p, remote in res:
+                remotes.setdefault(p, []).append(remote)
+
+            def removed_alias(p):
+                """is ``p`` reported under the alias of a directory that is not shared (any more)?"""
+                return any(r[2:].split('\\', 1)[0] not in aliases for r in remotes.get(p, []))
             toks = tokens(text)
             sig_queries.add((tuple(sorted({k for k, _ in toks})), min(len(got_set), 3)))
             facts = query_facts(text, where, indexed_words, False)
             if len(got) != len(got_set):
-                world.violate('C07.query_extra', what='same_file_twice', **facts)
+                twice = sorted(p for p in got_set if len(remotes[p]) > 1)
+                world.violate('C07.query_extra', what='same_file_twice', removed_alias=removed_alias(twice[0]), **facts)
             # results outside every currently shared directory
             for p in sorted(got_set):
                 if model.owner_of(p) is None:
-                    rec = model.removal_of(p) or {}
+                    alias = remotes[p][0][2:].split('\\', 1)[0]
+                    rec = model.removal_of(p, alias) or {}
                     world.violate('C07.stale', gc_ran=rec.get('gc'), handle_kept=rec.get('kept'), point=where,
                                   overlap=state['overlap'])
                     break
@@ -787,7 +795,7 @@ def _run(world: World, plan, restore):
                         world.probe('result_from_unscanned_readded_directory')
                         continue
                     world.violate('C07.query_extra', what='extra' if known else 'not_indexed',
-                                  moved=model.moved.get(p), **facts)
+                                  moved=model.moved.get(p), removed_alias=removed_alias(p), **facts)
                     break
             else:
                 world.trace('query', label, qi, len(got), nlock)
@@ -847,16 +855,21 @@ def _run(world: World, plan, restore):
             relation = model.relation(path) if model.is_shared(path) else 'unshared'
             keep = bool(step.get('keep'))
 
+            info = {}
+
             def fn():
                 arg = path
+                current = find_object(path)
+                info['alias'] = current.alias if current is not None else None
                 if step.get('by') == 'object':
-                    arg = find_object(path) or path
+                    arg = current or path
+                del current
                 removed = shares.remove_shared_directory(arg)
                 if keep:
                     kept[path] = removed
             call = await sync_call(label, fn)
             if call.outcome() == 'returned' and model.is_shared(path):
-                model.remove(path, handle_kept=keep)
+                model.remove(path, handle_kept=keep, alias=info.get('alias'))
                 share_op_happened()
                 state['removed_seen'] = True
                 sig_steps.append(('remove', relation, keep, bool(scans)))
